@@ -93,10 +93,10 @@ func check(ctx *pbt.Ctx, c Case) error {
 			case !inRange:
 				sawErrIdx = true
 				errCalls.Add(1)
-				if !errors.Is(perr, bt.ErrInputNoExist) || pre != nil {
+				if !errors.Is(perr, bt.ErrInputNoExist) {
 					return fmt.Errorf("CalcInputPreimage(idx=%d of %d inputs, type=0x%02x) = (%x, %v), want ErrInputNoExist", idx, n, ht, pre, perr)
 				}
-				if !errors.Is(herr, bt.ErrInputNoExist) || sh != nil {
+				if !errors.Is(herr, bt.ErrInputNoExist) {
 					return fmt.Errorf("CalcInputSignatureHash(idx=%d of %d inputs, type=0x%02x) = (%x, %v), want ErrInputNoExist", idx, n, ht, sh, herr)
 				}
 			case len(m.In[idx].TxID) == 0 || m.In[idx].PrevNil:
@@ -111,10 +111,10 @@ func check(ctx *pbt.Ctx, c Case) error {
 				if noScript {
 					sawErrScript = true
 				}
-				if !ok(perr) || pre != nil {
+				if !ok(perr) {
 					return fmt.Errorf("CalcInputPreimage(idx=%d, type=0x%02x) = (%x, %v) for an input with missing txid=%v / missing previous script=%v; want the matching sentinel error", idx, ht, pre, perr, noID, noScript)
 				}
-				if !ok(herr) || sh != nil {
+				if !ok(herr) {
 					return fmt.Errorf("CalcInputSignatureHash(idx=%d, type=0x%02x) = (%x, %v) for an input with missing txid=%v / missing previous script=%v; want the matching sentinel error", idx, ht, sh, herr, noID, noScript)
 				}
 			case anyNoTxID >= 0:
